@@ -194,7 +194,7 @@ def bytes_grams(tier, marker, kindtag):
                     continue          # nullable loop body
                 if sname == "loop" and (tag in ("greedy_any", "notlook", "until") or n == 0):
                     continue          # bodies that can succeed without consuming inside the window: endless loop by design
-                if sname != "tail" and (n + k) % 2 == 0 and (quick or check):
+                if sname != "tail" and ((n + k) % 2 == 0 and (quick or check) or (quick and check and (n + k) % 4 != 1)):
                     continue
                 g = corpus.Gram(0, rules, root, tags=[kindtag, tag, sname] + stags, pre=mkpre(guards, plain), alphabet="", extra_inputs=ins[total])
                 g.maxlen = 0
